@@ -17,6 +17,7 @@ import ClairModel.Proofs.Gem
 import ClairModel.Proofs.Maven
 import ClairModel.Proofs.RhcTag
 import ClairModel.Proofs.RhcTagShape
+import ClairModel.Proofs.Semver
 import ClairModel.Proofs.Pep440
 
 -- every variable of a property statement is bound explicitly: a misspelt name is an error, not a new variable
@@ -138,6 +139,159 @@ theorem fromSemver_embedding_small (a b : Int × Int × Int)
     Version.toInt32_id (by omega) ha.2.2.2.2.2, Version.toInt32_id (by omega) hb.2.1,
     Version.toInt32_id (by omega) hb.2.2.2.1, Version.toInt32_id (by omega) hb.2.2.2.2.2]
   simp [Version.satSlots, lexCmp, intCmp_totalPre.refl, Ordering.then]
+
+/-! ## Masterminds/semver in front of `FromSemver`; gobin.ParseVersion -/
+
+/-- The numbers `semver.NewVersion` returns are non-negative (they are the
+    values of digit strings) — the hypothesis of `fromSemver_monotone` holds of
+    every parsed version. -/
+theorem semver_numbers_nonneg (s : List Char) (v : Semver.SV) (h : Semver.parse s = some v) :
+    0 ≤ v.major ∧ 0 ≤ v.minor ∧ 0 ≤ v.patch := Semver.parse_nonneg h
+
+/-- `FromSemver ∘ NewVersion` never inverts Masterminds' `Compare`, for all
+    texts the parser accepts (any pre-release, any build metadata, numbers up
+    to 2^63-1): `a ≤ b` gives `FromSemver(a) ≤ FromSemver(b)`. -/
+theorem semver_projection_monotone (s t : List Char) (a b : Semver.SV)
+    (ha : Semver.parse s = some a) (hb : Semver.parse t = some b) (h : Semver.cmp a b ≠ .gt) :
+    Version.cmp (Semver.project a) (Semver.project b) ≠ .gt :=
+  Semver.project_mono a b (Semver.parse_nonneg ha) (Semver.parse_nonneg hb) (Semver.cmp_core_of_ne_gt a b h)
+
+/-- The order claircore itself uses on semantic versions — the generic
+    comparison of the projections — is a total preorder. -/
+theorem semver_generic_totalPre : TotalPre (keyCmp Version.cmp Semver.project) :=
+  keyCmp_totalPre Version.cmp_totalPre Semver.project
+
+/-- (Masterminds' own `Compare` is not: two numeric pre-release parts of equal
+    value and different spelling are each below the other.  claircore never
+    orders by it.) -/
+theorem semver_library_compare_counterexample :
+    (do let a ← Semver.parse "1.0.0-01".toList
+        let b ← Semver.parse "1.0.0-1".toList
+        pure (Semver.cmp a b, Semver.cmp b a)) = some (.lt, .lt) := by
+  decide
+
+/-- `gobin.ParseVersion` (the matcher-side normalisation of a Go module
+    version) is `FromSemver ∘ NewVersion` (the vulnerability-side one) on every
+    text whose three numbers have at most nine digits.  (`_partial`: beyond
+    nine digits `fitInt32` cuts the number, see the counterexample.) -/
+theorem gobin_agrees_with_fromSemver_partial (s : List Char) (g : Semver.Groups)
+    (hg : Semver.groups s = some g) (h1 : g.m1.length ≤ 9) (h2 : g.m2.length ≤ 9) (h3 : g.m3.length ≤ 9) :
+    ∃ v, Semver.parse s = some v ∧ Semver.gobinParse s = some (Semver.project v) :=
+  Semver.gobin_agrees hg h1 h2 h3
+
+example : ∃ g, Semver.groups "v1.2.30-rc.1+build".toList = some g ∧ g.m1.length ≤ 9 ∧ g.m2.length ≤ 9 ∧ g.m3.length ≤ 9 :=
+  ⟨_, rfl, by decide, by decide, by decide⟩
+
+/-- Finding gobin-parseversion-truncates: with a ten-digit number the
+    projection inverts the order, and differs from `FromSemver`. -/
+theorem gobin_truncation_inverts_counterexample :
+    (do let a ← Semver.parse "1.0.1000000000".toList
+        let b ← Semver.parse "1.0.999999999".toList
+        let ga ← Semver.gobinParse "1.0.1000000000".toList
+        let gb ← Semver.gobinParse "1.0.999999999".toList
+        pure (Semver.cmp a b, Version.cmp ga gb, Version.cmp (Semver.project a) (Semver.project b)))
+      = some (.gt, .lt, .gt) := by
+  decide
+
+/-! ## OSV `Insert`, SEMVER ranges (updater/osv/osv.go) -/
+
+/-- The event loop leaves exactly one cell per interval, in the order of the
+    list — for every list of intervals (`introduced`, then at most one of
+    `fixed` / `last_affected` / `limit: "*"`) in which every interval but the
+    last has its closing event; sorted or not, "0" or a version as
+    `introduced`, parseable or not, with or without an `affected.versions` list. -/
+theorem osv_cells_of_intervals (hasVersions : Bool) (ivs : List OsvRange.Interval)
+    (h : OsvRange.wellShaped ivs = true) :
+    (OsvRange.run hasVersions {} (OsvRange.eventsOf ivs)).vers = ivs.map (OsvRange.cellOf hasVersions) := by
+  have := OsvRange.run_intervals hasVersions ivs {} (Or.inl ⟨rfl, rfl, rfl⟩) h
+  simpa [OsvRange.St.vers] using this
+
+/-- **The ranges cover exactly the affected versions.**  For a well-shaped
+    list of intervals whose bounds are semantic versions without pre-release
+    and with numbers below MaxInt32, and a version of the same kind: the
+    projection `FromSemver(v)` lies in one of the ranges `Insert` creates
+    (after the implicit +∞ and the removal of inverted ranges) exactly when
+    some interval contains `v` as the OSV schema states it (`introduced ≤ v`,
+    `v < fixed`, `v ≤ last_affected`, unbounded otherwise; Masterminds'
+    `Compare`).  `last_affected` needs an empty `affected.versions` list (with
+    one the code ignores the event: C14's finding).  (`_partial`: pre-releases
+    and numbers above MaxInt32 are collapsed by the projection, see the
+    counterexamples.) -/
+theorem osv_ranges_cover_exactly_partial (hasVersions : Bool) (ivs : List OsvRange.Interval) (v : Semver.SV)
+    (hw : OsvRange.wellShaped ivs = true) (hc : ∀ iv ∈ ivs, iv.clean = true)
+    (hl : hasVersions = false ∨ ∀ iv ∈ ivs, iv.close.isLastAffected = false)
+    (hp : v.pre.isEmpty = true) (hs : OsvRange.small v = true) :
+    OsvRange.covers (OsvRange.ranges hasVersions (OsvRange.eventsOf ivs)) (Semver.project v)
+      = ivs.any fun iv => OsvRange.affectedBy iv v :=
+  OsvRange.covers_exact hasVersions ivs v hw hc hl hp hs
+
+/-- The hypotheses are satisfiable: two intervals out of order, "0", `fixed`
+    and `last_affected`. -/
+example :
+    let ivs : List OsvRange.Interval :=
+      [⟨"2.0.0".toList, .lastAffected "2.3.1".toList⟩, ⟨"0".toList, .fixed "v1.4.2".toList⟩]
+    OsvRange.wellShaped ivs = true ∧ (ivs.all fun iv => iv.clean) = true ∧
+    (ivs.map fun iv => (Semver.parse "2.3.1".toList).map (OsvRange.affectedBy iv)) = [some true, some false] := by
+  decide
+
+/-- For ALL versions and bounds (pre-releases, numbers of any size): a version
+    whose projection is inside one of the ranges lies below the closing bound
+    of one of the intervals — strictly below `fixed`, at most `last_affected` —
+    in Masterminds' order.  The projection can lose affected versions, it never
+    reaches past an upper bound. -/
+theorem osv_covers_within_upper (hasVersions : Bool) (ivs : List OsvRange.Interval) (t : List Char) (v : Semver.SV)
+    (hw : OsvRange.wellShaped ivs = true)
+    (hl : hasVersions = false ∨ ∀ iv ∈ ivs, iv.close.isLastAffected = false)
+    (hv : Semver.parse t = some v)
+    (h : OsvRange.covers (OsvRange.ranges hasVersions (OsvRange.eventsOf ivs)) (Semver.project v) = true) :
+    ∃ iv ∈ ivs, OsvRange.upperSound iv.close v :=
+  OsvRange.covers_within_upper hasVersions ivs t v hw hl hv h
+
+/-- Exactness fails with pre-releases: `FromSemver` drops them, so a Go
+    pseudo-version below the fixed pseudo-version is affected and not covered
+    (the range [0.0.0, 0.0.0) is empty). -/
+theorem osv_prerelease_not_covered_counterexample :
+    let ivs : List OsvRange.Interval := [⟨"0".toList, .fixed "0.0.0-20220314234659-1baeb1ce4c0b".toList⟩]
+    (do let v ← Semver.parse "0.0.0-20210101000000-abcdef123456".toList
+        pure (OsvRange.wellShaped ivs, ivs.any fun iv => OsvRange.affectedBy iv v,
+              OsvRange.covers (OsvRange.ranges false (OsvRange.eventsOf ivs)) (Semver.project v)))
+      = some (true, true, false) := by
+  decide
+
+/-- … and with numbers above MaxInt32, which saturate. -/
+theorem osv_saturated_not_covered_counterexample :
+    let ivs : List OsvRange.Interval := [⟨"0".toList, .fixed "2147483654.0.0".toList⟩]
+    (do let v ← Semver.parse "2147483653.0.0".toList
+        pure (OsvRange.wellShaped ivs, ivs.any fun iv => OsvRange.affectedBy iv v,
+              OsvRange.covers (OsvRange.ranges false (OsvRange.eventsOf ivs)) (Semver.project v)))
+      = some (true, true, false) := by
+  decide
+
+/-- The event loop depends on the order of the events (the schema's evaluation
+    sorts them): `introduced 1.0.0, introduced 2.0.0, fixed 1.5.0, fixed 2.5.0`
+    yields the single range [2.0.0, 2.5.0); 1.2.0 is not covered. -/
+theorem osv_unsorted_events_counterexample :
+    let evs : List OsvRange.Event :=
+      [{ introduced := "1.0.0".toList }, { introduced := "2.0.0".toList },
+       { fixed := "1.5.0".toList }, { fixed := "2.5.0".toList }]
+    (do let v ← Semver.parse "1.2.0".toList
+        let w ← Semver.parse "2.2.0".toList
+        pure ((OsvRange.ranges false evs).length,
+              OsvRange.covers (OsvRange.ranges false evs) (Semver.project v),
+              OsvRange.covers (OsvRange.ranges false evs) (Semver.project w)))
+      = some (1, false, true) := by
+  decide
+
+/-- An interval without closing event that is followed by another interval is
+    lost (`wellShaped` excludes it): `introduced 1.0.0, introduced 3.0.0,
+    fixed 4.0.0` does not cover 2.0.0. -/
+theorem osv_unclosed_interval_lost_counterexample :
+    let ivs : List OsvRange.Interval := [⟨"1.0.0".toList, .none⟩, ⟨"3.0.0".toList, .fixed "4.0.0".toList⟩]
+    (do let v ← Semver.parse "2.0.0".toList
+        pure (OsvRange.wellShaped ivs, ivs.any fun iv => OsvRange.affectedBy iv v,
+              OsvRange.covers (OsvRange.ranges false (OsvRange.eventsOf ivs)) (Semver.project v)))
+      = some (false, true, false) := by
+  decide
 
 /-! ## PEP 440 (pkg/pep440) -/
 
